@@ -596,7 +596,7 @@ for nm in ["c06l_signing_message_legacy_nochain", "c06l_signing_message_legacy_c
       inputs="transaction of that kind with every integer field symbolic, recipient present/absent", bound="calldata 2 bytes, empty access list",
       stubs=LIST_STUB + ["ethdigest::Digest::of -> uninterpreted recorder"], trusted=["Keccak-256 (ethdigest/sha3)"],
       spec="exactly one Keccak over exactly the unsigned payload (type byte || list) built from the same leaves in the same order")
-H("c06l_encode_dispatch", "transaction", ["C06", "C17"], timeout=900, mem_gb=6, auto_unwind=K256_UNWIND,
+H("c06l_encode_dispatch", "transaction", ["C06", "C17"], timeout=2400, mem_gb=20, auto_unwind=K256_UNWIND,
   functions=["transaction::Transaction::encode", "transaction::Transaction::rlp_encode"],
   inputs="transaction kind symbolic (legacy with/without chain id, EIP-2930, EIP-1559), all integer fields symbolic, parity symbolic",
   bound="calldata 2 bytes, empty access list", stubs=LIST_STUB,
@@ -672,7 +672,7 @@ H("c06_kind_dispatch", "transaction", ["X06"], timeout=900, mem_gb=9,
 
 # =========================================================================================== C13 string leaves (error text cut)
 for n, tiers in [(2, 0), (3, 0), (4, 0), (6, 0), (8, 0)]:
-    H(f"c13n_bytes_{n}", "serialization", ["C13", "C17"], timeout=1800, mem_gb=9,
+    H(f"c13n_bytes_{n}", "serialization", ["C13", "C17"], timeout=1800, mem_gb=(14 if n >= 8 else 9),
       functions=["serialization::bytes::deserialize::<serde_json::Value>", "hex::decode (real)", "str::strip_prefix"],
       inputs=f"JSON string: every ASCII string of exactly {n} bytes", bound=f"{n} bytes", stubs=NOFMT,
       spec="Ok iff 0x + an even number of hex digits of either case, value = those bytes; anything else Err")
@@ -824,7 +824,8 @@ c03_master_s16 c03_master_s32 c03_master_s96 c03_d1_hardened_s64 c03_d1_normal_s
 c04_new_01 c04_new_16 c04_new_24 c04_new_40 c04_new_64
 c06_signing_message_legacy_chain c06_signing_message_legacy_nochain c06_eip2930_unsigned c06l_encode_dispatch
 c06i_alist_1_0_0 c06i_alist_2_0_2 c06i_alist_2_2_2 c06l_eip1559_signed_sym_r
-c19_filtercap_ascii_3 c19_filtercap_ascii_6 c19_filtercap_ascii_16 c19_hexcap_ascii6 c19_hexcap_unicode c19_respell_0
+c19_filtercap_ascii_3 c19_filtercap_ascii_6 c19_filtercap_ascii_16 c19_hexcap_ascii6 c19_hexcap_unicode c19_respell_0 c19_respell_3
+c13n_bytes_3 c13n_bytes_6 c13n_bytes_8
 c07_bytes_003 c07_bytes_020 c07_bytes_032 c07_bytes_033 c07_bytes_054 c07_bytes_064 c07_bytes_100 c07_bytes_255 c07_bytes_256
 c07_bytes_257 c07_list_1_0_2 c07_list_33_33_33 c07_iter_0_0_0
 c09_bytes4_len4 c09_bytes4_len5 c09_bytes31_len31
